@@ -103,6 +103,12 @@ def canon_bytes(h):
         except (canon.CanonError, ValueError) as e:
             c2 = None
             e1 = str(e)
+        for cx in (c1, c2):
+            pass
+        if c1 is not None and c1[0] in ("jmpf", "callf"):
+            c1 = c1 + (("i", canon.far_operand_size(h)),)
+        if c2 is not None and c2[0] in ("jmpf", "callf"):
+            c2 = c2 + (("i", canon.far_operand_size(h)),)
         if c1 is None or c2 is None:
             res = ("parse", c1, c2, "llvm=%s bfd=%s (%s)" % (t1, t2, e1))
         else:
